@@ -349,7 +349,8 @@ fn finish(
     let mut rep = rep;
     if prop == "C07" {
         for (id, why) in &built.rejected {
-            if why.starts_with("E0004") || why.starts_with("E0599") || why.starts_with("E0026") || why.starts_with("E0027") {
+            // (E0599 also arises for other missing items; only a missing *variant* speaks about the enum)
+            if why.starts_with("E0004") || (why.starts_with("E0599") && why.contains("variant")) || why.starts_with("E0026") || why.starts_with("E0027") {
                 if let Some(d) = decls.iter().find(|d| &d.id == id) {
                     rep.viols.push(vlib_report::Viol {
                         prop: "C07".into(),
@@ -575,7 +576,7 @@ pub fn replay(env: &Env, dir: &str) -> i32 {
             println!("replay: the declaration and its wildcard-free error mapping compile now");
             return 0;
         }
-        if per_file.values().any(|w| w.starts_with("E0004") || w.starts_with("E0599") || w.starts_with("E0026") || w.starts_with("E0027")) {
+        if per_file.values().any(|w| w.starts_with("E0004") || (w.starts_with("E0599") && w.contains("variant")) || w.starts_with("E0026") || w.starts_with("E0027")) {
             println!("VIOLATION property={prop} replay={dir}");
             println!("  signature: {}\n  still: {per_file:?}", case["signature"].as_str().unwrap_or(""));
             return 1;
